@@ -184,8 +184,95 @@ func topCall(s ast.Stmt) *ast.CallExpr {
 	return nil
 }
 
+// hoistable returns the eligible single-result calls that occur as direct
+// operands of the expression list (f(x), !f(x)), in evaluation order.
+func (in *inliner) hoistable(list []ast.Expr, stack []*types.Func, depth int) []*ast.CallExpr {
+	var out []*ast.CallExpr
+	for _, e := range list {
+		x := ast.Unparen(e)
+		if u, ok := x.(*ast.UnaryExpr); ok && u.Op == token.NOT {
+			x = ast.Unparen(u.X)
+		}
+		call, ok := x.(*ast.CallExpr)
+		if !ok {
+			continue
+		}
+		callee := in.eligible(call, stack, depth)
+		if callee == nil {
+			continue
+		}
+		if sig := callee.Obj.Type().(*types.Signature); sig.Results().Len() != 1 {
+			continue
+		}
+		out = append(out, call)
+	}
+	return out
+}
+
+// hoist replaces the given calls inside the expressions by fresh temporaries
+// and returns the statements `tmp := call` that go in front.
+func (in *inliner) hoist(list []ast.Expr, calls []*ast.CallExpr) ([]ast.Expr, []ast.Stmt) {
+	var pre []ast.Stmt
+	repl := map[*ast.CallExpr]*ast.Ident{}
+	for _, call := range calls {
+		in.label++
+		name := fmt.Sprintf("inl%d_res", in.label)
+		t := in.info.TypeOf(call)
+		obj := types.NewVar(call.Pos(), in.root.Obj.Pkg(), name, t)
+		def := &ast.Ident{NamePos: call.Pos(), Name: name}
+		in.info.Defs[def] = obj
+		use := &ast.Ident{NamePos: call.Pos(), Name: name}
+		in.info.Uses[use] = obj
+		in.info.Types[use] = types.TypeAndValue{Type: t}
+		repl[call] = use
+		pre = append(pre, &ast.AssignStmt{Lhs: []ast.Expr{def}, TokPos: call.Pos(), Tok: token.DEFINE, Rhs: []ast.Expr{call}})
+	}
+	out := make([]ast.Expr, len(list))
+	for i, e := range list {
+		x := ast.Unparen(e)
+		if call, ok := x.(*ast.CallExpr); ok && repl[call] != nil {
+			out[i] = repl[call]
+			continue
+		}
+		if u, ok := x.(*ast.UnaryExpr); ok && u.Op == token.NOT {
+			if call, ok := ast.Unparen(u.X).(*ast.CallExpr); ok && repl[call] != nil {
+				n := &ast.UnaryExpr{OpPos: u.OpPos, Op: token.NOT, X: repl[call]}
+				if tv, ok := in.info.Types[u]; ok {
+					in.info.Types[n] = tv
+				}
+				out[i] = n
+				continue
+			}
+		}
+		out[i] = e
+	}
+	return out, pre
+}
+
 // stmt returns the statements that replace s.
 func (in *inliner) stmt(s ast.Stmt, stack []*types.Func, depth int) []ast.Stmt {
+	// calls that are operands of a return or of an if condition are taken out first
+	switch x := s.(type) {
+	case *ast.ReturnStmt:
+		if topCall(s) == nil || len(x.Results) > 1 {
+			if calls := in.hoistable(x.Results, stack, depth); len(calls) > 0 {
+				res, pre := in.hoist(x.Results, calls)
+				out := in.stmts(pre, stack, depth)
+				return append(out, &ast.ReturnStmt{Return: x.Return, Results: res})
+			}
+		}
+	case *ast.IfStmt:
+		if x.Init == nil {
+			if calls := in.hoistable([]ast.Expr{x.Cond}, stack, depth); len(calls) > 0 {
+				res, pre := in.hoist([]ast.Expr{x.Cond}, calls)
+				c := *x
+				c.Cond = res[0]
+				in.copyInfo(x, &c)
+				out := in.stmts(pre, stack, depth)
+				return []ast.Stmt{&ast.BlockStmt{Lbrace: x.Pos(), Rbrace: x.End(), List: append(out, in.stmt(&c, stack, depth)...)}}
+			}
+		}
+	}
 	if call := topCall(s); call != nil {
 		if callee := in.eligible(call, stack, depth); callee != nil {
 			return in.expand(s, call, callee, stack, depth)
